@@ -30,6 +30,7 @@ type CE struct {
 	Deps  map[ssa.Value]bool
 	Reads []memRead
 	V     ssa.Value // the value after resolution through phis / local stores / interface wrapping
+	V0    ssa.Value // the value as written (before resolution)
 }
 
 type canonCtx struct {
@@ -43,7 +44,7 @@ type canonCtx struct {
 func (ex *Explorer) Canon(st *State, v ssa.Value) *CE {
 	c := &canonCtx{ex: ex, st: st, deps: map[ssa.Value]bool{}}
 	s := c.val(v)
-	return &CE{S: s, Deps: c.deps, Reads: c.reads, V: ex.Resolve(st, v)}
+	return &CE{S: s, Deps: c.deps, Reads: c.reads, V: ex.Resolve(st, v), V0: v}
 }
 
 // CanonAddr renders the location an address value points to.
